@@ -367,6 +367,9 @@ def run(ctx):
             it = expr_tree(prog, v7, c.args[0])
             ctx.inst("C18.R2", "seven/loop-visits-everything/" + ("points" if "p1.points" in it and "Range" not in it else "pairs"), not bad,
                      "the validation loop over %s is left only when exhausted or on an error" % it[:60], ["%s leaves the loop at %s" % (cc, v7.bloc(u)) for u, v_, cc in bad] or "ok", c.loc)
+    live = [x for c in mpc.calls() if c.callee and c.callee["name"] == "next" for x in loop_early_exits(prog, mpc, c.block)]
+    ctx.inst("C18.R2", "loop-rule-liveness", len(live) == 1 and live[0][2].startswith("le(" + UR), "positive control for the loop-exit rule: the curve's segment search does leave its loop early (on ur <= point util) and the rule sees exactly that exit",
+             [x[2][:80] for x in live], mpc.loc(mpc.raw["span"]))
     ctx.floor("C18.R6", 8)
     ctx.floor("C18.R2", 12)
     ctx.floor("C18.R3", 8)
